@@ -128,7 +128,7 @@ def run(repo, tier):
 
     # ---------------------------------------------------------------- purity
     for fname, params in (("substitute", ["X", "motif"]), ("insert", ["X", "motif"]), ("delete", ["X"]),
-                          ("multisubstitute", ["X", "motifs"]), ("randomize", ["X", "probs"])):
+                          ("multisubstitute", ["X", "motifs", "spacing"]), ("randomize", ["X", "probs"])):
         out += pure_params(repo, repo.func(ERSATZ + "." + fname), params)
 
     # ---------------------------------------------------------------- one-hot validation dominates returns
